@@ -265,6 +265,7 @@ def rand_run(rng, fmt, kind, *, calls=None, iters=None, value_classes=None, dist
 KINDS = ['plain', 'vegas', 'mc']
 # structure sizes far above what ordinary cases use: around powers of two (index types, buffers) and odd ones (halving schemes)
 BIG_COUNTS = [65, 100, 129, 130, 255, 256, 257, 300, 515, 700, 1001]
+HUGE_COUNTS = [4096, 4097, 5000, 65537]        # only for operations that are linear in the size
 
 def small_bins(s):
     """the executed model refines the grid once per rank: keep default grids small in MPI cases (cost ~ ranks x dims x bins^2)"""
@@ -391,10 +392,11 @@ def gen_C09(c, rng, tier):
                 cl = ['boundary' if u in cum else 'zero' if u == 0 else 'other'] + (['has_zero_weight'] if any(w == 0 for w in ws) else [])
                 c.add(t, 'select', [toks(fmt, ws), fmt.tok(u)], classes=cl, nontrivial=(u in cum or any(w == 0 for w in ws)))
         # long weight vectors (sizes beyond any index type narrower than size_t, beyond small-buffer and guide-table thresholds)
-        for n in rng.sample(BIG_COUNTS, scale(tier, 3, len(BIG_COUNTS))):
-            ws = rand_weights(rng, fmt, n)
+        for n in rng.sample(BIG_COUNTS, scale(tier, 3, len(BIG_COUNTS))) + [rng.choice(HUGE_COUNTS[:3] if tier == 'quick' else HUGE_COUNTS)]:
+            equal = rng.random() < 0.5
+            ws = [Fraction(1)] * n if equal else rand_weights(rng, fmt, n)      # (equal weights: what every run starts with)
             for i in range(n):
-                if rng.random() < 0.2: ws[i] = Fraction(0)
+                if not equal and rng.random() < 0.2: ws[i] = Fraction(0)
             if rng.random() < 0.5: ws[0] = Fraction(0)
             if all(w == 0 for w in ws): ws[n // 2] = Fraction(1)
             cum = oracles.cumulative(fmt, ws)
@@ -710,6 +712,7 @@ def gen_C10(c, rng, tier):
       'several distributions per integrand, the same distribution filled twice, fill values from tables; three integrators and types; '
       'non-trivial = at least one distribution', COMMON_ASSUMPTIONS)
 def gen_C11(c, rng, tier):
+    PROPS['C11']['mpi'] = True
     for t in TYPES:
         fmt = FMTS[t]
         for kind in KINDS:
@@ -718,6 +721,12 @@ def gen_C11(c, rng, tier):
                 s, cl, info = rand_run(rng, fmt, kind, dists=dl, calls=[5, 9, 24], iters=rng.choice([1, 2]), trace=1,
                                        wants=(1 if kind == 'mc' and rng.random() < 0.6 else None), value_classes=['small_int', 'frac', 'neg', 'zero', 'nan'])
                 c.add(t, 'run', s, classes=cl + (['two_d'] if any(d[1] > 1 for d in dl) else []), info=info)
+            for _ in range(scale(tier, 2, 16)):
+                # the MPI drivers: every rank must return the distributions of the whole iteration (all ranks' fills reduced)
+                dl = rand_dists(rng, fmt, n=rng.choice([1, 2]))
+                s, cl, info = rand_run(rng, fmt, kind, dists=dl, calls=[9, 24], iters=rng.choice([1, 2]), value_classes=['small_int', 'frac', 'neg', 'zero'], finite_only=True)
+                s, cl2 = mpi_variant(rng, s, info, worlds=(2, 3, 5))
+                c.add(t, 'run', s, classes=cl + cl2 + ['distributions_on_every_rank'], info=info)
         for _ in range(scale(tier, 10, 60)):
             d = rand_dists(rng, fmt, n=1, two_d=True)[0]
             c.add(t, 'midpoints', d[:6], classes=['midpoints'])
@@ -1021,6 +1030,17 @@ def gen_C03(c, rng, tier):
                     s = [e for e in s0 if e[0] != 'ops'] + [['ops', ops]]
                     c.add(t, 'run', s, classes=cl + ['cuts_%d' % sum(cuts)], resume_group=group, nontrivial=sum(cuts) > 0, info=info)
     gen_C03_target(c, rng, tier)
+    for t in TYPES:
+        fmt = FMTS[t]
+        for kind in KINDS:
+            for _ in range(scale(tier, 2, 10)):
+                # the MPI drivers with the callback in a writing mode: the file is written by rank 0 of the communicator of the integration
+                # (which need not be rank 0 of the world) and a run resumed from the returned checkpoint continues the stream
+                s, cl, info = rand_run(rng, fmt, kind, iters=3, calls=[6, 10], cb=['builtin', rng.choice([1, 3]), fmt.rtok(0)], finite_only=True, poly=True, dists=[])
+                calls = info['calls']
+                P = rng.choice([2, 3, 5]); perm = list(range(P)); rng.shuffle(perm)
+                s = small_bins([e for e in s if e[0] not in ('ops', 'subcomm')]) + [['subcomm', rng.choice([0, 1, 3])], ['ops', [['mpi', calls[:2], P, perm], ['reload'], ['mpi', calls[2:], P, perm], ['text']]]]
+                c.add(t, 'run', s, classes=cl + ['mpi_shim', 'world_%d' % P, 'callback_writes_file_under_mpi'], info=info)
     for t in TYPES: gen_sizes(c, rng, tier, t, ['iterations', 'bins'], ops_fn=lambda cs: [['run', cs[:len(cs) // 2]], ['reload'], ['run', cs[len(cs) // 2:]], ['text']])
 
 def gen_C03_target(c, rng, tier):
